@@ -1263,3 +1263,68 @@ Proof.
   destruct cz; simpl; intro H; subst; try reflexivity; try (apply plain_nocl; exact H).
   destruct H as [->|[->| ->]]; reflexivity.
 Qed.
+
+(* ---- EnsurePathExistsOnAdd on a path whose parents all exist: nothing is created ---- *)
+Lemma ensure_existing o : forall parts c,
+  cgood c -> Forall tok_dom (map decode_token parts) ->
+  (exists p, descend (dia o) (map decode_token (removelast parts)) (cval c) = Some p /\ is_container p = true) ->
+  exists c', ensure o parts c = (None, c') /\ cval c' = cval c /\ cgood c'.
+Proof.
+  induction parts as [|part parts IH]; intros c G D H.
+  - exists c. auto.
+  - destruct parts as [|nextp rest]; [exists c; auto|].
+    rewrite ensure_unfold. cbv zeta.
+    inversion D as [|? ? Dk Dr]; subst.
+    destruct H as [p [Hd Cp]]. change (removelast (part :: nextp :: rest)) with (part :: removelast (nextp :: rest)) in Hd.
+    cbn [map descend] in Hd.
+    pose proof (con_get_sim o c (decode_token part) G Dk) as CG.
+    destruct (child_at (dia o) (cval c) (decode_token part)) as [j|] eqn:Ech; [|discriminate].
+    destruct CG as [n [Hg [Ev Gn]]]. rewrite Hg.
+    assert (Cj : is_container j = true).
+    { destruct (removelast (nextp :: rest)) as [|t ts] eqn:Er.
+      - cbn [map descend] in Hd. inversion Hd; subst. exact Cp.
+      - cbn [map descend] in Hd. destruct j; try discriminate; reflexivity. }
+    pose proof (into_con_sim n Gn) as IC. rewrite Ev, Cj in IC. destruct IC as [ch [Hic [Evc Gch]]].
+    assert (Step : exists c', (let (e, ch') := ensure o (nextp :: rest) ch in (e, con_put o c (decode_token part) (node_of_con ch'))) = (None, c') /\
+                              cval c' = cval c /\ cgood c').
+    { destruct (IH ch Gch Dr) as [ch' [E1 [E2 E3]]].
+      { exists p. rewrite Evc. split; [exact Hd | exact Cp]. }
+      rewrite E1. eexists. split; [reflexivity|].
+      destruct (con_put_sim o c (decode_token part) (node_of_con ch') n G Dk Hg (proj1 E3)) as [Q1 Q2].
+      split; [|exact Q2]. rewrite Q1. fold (cval ch'). rewrite E2, Evc. apply put_child_same. exact Ech. }
+    destruct n as [|t|ks ob|ns]; cbn [aval] in *.
+    + rewrite <- Ev in Cj. discriminate.
+    + destruct t; try (rewrite <- Ev in Cj; discriminate); rewrite Hic; [exact Step|].
+      destruct ch; try exact Step; cbn [into_con] in Hic; destruct (doc_of ms); discriminate.
+    + rewrite Hic. destruct ch; try exact Step; cbn [into_con] in Hic; discriminate.
+    + rewrite Hic. exact Step.
+Qed.
+
+(* an add that succeeds without the option gives the same result with it *)
+Theorem ensure_agrees o st op r c j' :
+  s_root st = RCon c -> cgood c -> o_ensure o = true ->
+  op_str op (B "path") = Ok (x2f :: r) -> Forall tok_dom (map decode_token (split_slash r)) -> val_good op ->
+  at_parent (dia o) (ptoks r) (cval c) (add_leaf (dia o) (ref_value op)) = ROk j' ->
+  exists st', op_add o st op = Ok st' /\ sval st' = j' /\ sgood st'.
+Proof.
+  intros Hr G En Hp D Vg AP.
+  (* the parents exist: the reference descended through them *)
+  assert (Par : exists p, descend (dia o) (map decode_token (path_parts r)) (cval c) = Some p /\ is_container p = true).
+  { unfold ptoks in AP. rewrite at_parent_snoc in AP.
+    destruct (descend (dia o) (map decode_token (path_parts r)) (cval c)) as [p|]; [|discriminate].
+    exists p. split; auto. destruct (is_container p) eqn:Cp; auto.
+    rewrite (proj1 (leaf_noncontainer (dia o) p (path_key r) Cp)) in AP. discriminate. }
+  assert (SS : split_slash (x2f :: r) = [] :: split_slash r) by reflexivity.
+  pose proof (split_slash_nonempty r) as NE.
+  assert (EP : exists c1, ensure_path o c (x2f :: r) = (None, c1) /\ cval c1 = cval c /\ cgood c1).
+  { unfold ensure_path. rewrite SS. destruct (split_slash r) as [|p0 ps] eqn:E; [congruence|].
+    apply ensure_existing; [exact G | exact D | unfold path_parts in Par; rewrite E in Par; exact Par]. }
+  destruct EP as [c1 [E1 [E2 E3]]].
+  (* from here on: the add of op_add_sim on c1, whose value is that of c *)
+  pose proof (opv_good op Vg) as Gv.
+  pose proof (add_find_sim o c1 r (opv op) E3 D Gv) as AF. rewrite opv_aval, E2, AP in AF.
+  destruct AF as [a [c2 [A1 [A2 A3]]]].
+  unfold op_add. rewrite Hp, Hr, En, E1. fold (opv op).
+  change (find o c1 (x2f :: r) _) with (find o c1 (x2f :: r) (add_fn o (opv op))). rewrite A1.
+  eexists. split; [reflexivity|]. unfold sval, sgood. cbn [s_root]. split; auto. eauto.
+Qed.
